@@ -47,6 +47,14 @@ func addORShortcut(node schema.Node, rootSchema *schema.Schema, val string) {
 		rootSchema.AddUnnamedType(&typ, lex.File(), lex.Begin())
 
 		s = strings.TrimSpace(s)
+		if s == "" {
+			// The scanner ends a shortcut at the end of the input even when
+			// nothing follows the last "|" (for example "@foo |").
+			panic(lexeme.NewLexEventError(
+				node.BasisLexEventOfSchemaForNode(),
+				errors.Format(errors.ErrInvalidSchemaName, s),
+			))
+		}
 		ss.AddName(s, s, jschema.RuleASTNodeSourceGenerated)
 	}
 
